@@ -104,11 +104,25 @@ theorem C05_records_only_for_submitted (conv : Nat → Nat) (col : Collection) :
     every report returned by any operation of any program carries a trace id supplied to a
     `root … sampled=true` operation of that program -/
 theorem C05_only_sampled_roots_delivered (p : Program) :
-    ∀ o ∈ (run Sys.init p).2, ∀ rs, o = .report (some rs) → ∀ r ∈ rs, r.traceId ∈ sampledRootTraces p := by
-  intro o ho rs hrs
-  refine run_prov (sampledRootTraces p) p Sys.init ?_ (Prov.init _) o ho rs hrs
-  intro x hx tr htr
-  exact List.mem_flatMap.mpr ⟨x, hx, htr⟩
+    ∀ o ∈ (run Sys.init p).2, ∀ rs, o = .report (some rs) → ∀ r ∈ rs, r.traceId ∈ sampledRootTraces p :=
+  fun o ho rs hrs => (run_prov_init p o ho).1 rs hrs
+
+/-- **the sampling decision propagates to every extracted context, whatever the program**:
+    a context returned by `SpanContext::from_span` / `current_local_parent` anywhere in any
+    program carries `sampled = true` only with the trace id of a sampled root, and
+    `sampled = false` only with the trace id of an unsampled root -/
+theorem C05_contexts_carry_decision (p : Program) :
+    ∀ o ∈ (run Sys.init p).2, ∀ c, o = .ctx (some c) →
+      (c.sampled = true → c.traceId ∈ sampledRootTraces p) ∧ (c.sampled = false → c.traceId ∈ unsampledRootTraces p) :=
+  fun o ho c hc => (run_prov_init p o ho).2 c hc
+
+/-- a context of a trace that has no sampled root says `sampled = false` -/
+theorem C05_unsampled_context (p : Program) (tr : Nat) (h : tr ∉ sampledRootTraces p) :
+    ∀ o ∈ (run Sys.init p).2, ∀ c, o = .ctx (some c) → c.traceId = tr → c.sampled = false := by
+  intro o ho c hc htr
+  cases hs : c.sampled with
+  | false => rfl
+  | true => exact absurd (htr ▸ (C05_contexts_carry_decision p o ho c hc).1 hs) h
 
 /-- **an unsampled trace produces no reporter output at all**: if no sampled root of the
     program uses trace id `tr` (the trace's roots are all created with `sampled = false`), no
@@ -139,7 +153,10 @@ def c05Prog : Program :=
    (0, .child1 "c" "cb" "b"), (0, .drop "c"), (0, .drop "b"), (0, .drop "a"), (0, .cycle)]
 example : ((run Sys.init c05Prog).2.filterMap fun | .report (some rs) => some (rs.map (·.traceId)) | _ => none)
     = [[7]] := by decide
-example : sampledRootTraces c05Prog = [7] := by decide
+example : sampledRootTraces c05Prog = [7] ∧ unsampledRootTraces c05Prog = [9] := by decide
+/-- … and a context extracted from the unsampled trace's child says (9, sampled = false) -/
+example : ((run Sys.init (c05Prog.take 5 ++ [(0, .ctxOf "c")])).2.filterMap fun
+    | .ctx (some c) => some (c.traceId, c.sampled) | _ => none) = [(9, false)] := by decide
 
 /-! non-vacuity: a mixed parent set keeps its sampled parent only -/
 example : ([⟨1, 2, 0, false, true⟩, ⟨3, 4, Consts.notSampledCollectId, false, false⟩] : Token).filter (·.isSampled)
